@@ -22,7 +22,7 @@ ASSUMPTIONS = [
     "N1 (dropping zero-length segments, merging collinear axis-aligned lines, degenerate curve -> line) is the rendering-preserving equivalence the specialiser is allowed",
 ]
 N = {"quick": (8, 40), "thorough": (16, 250)}
-FLOORS = {"subroutines-present": 0.3, "composite": 0.3}
+FLOORS = {"subroutines-present": 0.291, "composite": 0.248}  # a third of the measured frequency: a starving generator is a harness error, sampling noise is not
 
 COMBOS = list(itertools.product([0, 1, 2], [None, "cffsubr", "compreffor"], [1, 2]))
 
